@@ -189,6 +189,7 @@ Theorem C19_source_tie :
   /\ gen_sort_stable = m_sort_stable
   /\ gen_dispatch = m_dispatch
   /\ (forall a b c d, gen_empty_dtype_rule a b c d = m_empty_dtype_rule fix5_empty_dtype a b c d)
+  /\ (forall a b c d e f g, gen_int_magnitude_rule a b c d e f g = m_int_magnitude_rule fix8_int_magnitude a b c d e f g)
   /\ (forall a b c, gen_flat_check_raises a b c = m_flat_check_raises fix6_flat_cells a b c)
   /\ gen_nested_converts_rows = m_nested_converts_rows
   /\ (forall a, gen_add_name_raises a = m_add_name_raises a)
@@ -200,9 +201,9 @@ Theorem C19_source_tie :
   /\ (forall a w, gen_sa_width_from_encoded a w = m_sa_width_from_encoded a w).
 Proof.
   exact (conj b_from_rows_transposes (conj b_from_rows_empty_rule (conj b_sort_key_rule (conj b_sort_stable
-        (conj b_dispatch (conj b_empty_dtype_rule (conj b_flat_check_raises (conj b_nested_converts_rows
+        (conj b_dispatch (conj b_empty_dtype_rule (conj b_int_magnitude_rule (conj b_flat_check_raises (conj b_nested_converts_rows
         (conj b_add_name_raises (conj b_add_empty_typed_raises (conj b_dict_join (conj b_dict_split
-        (conj b_sa_length (conj b_sa_pads_right b_sa_width_from_encoded)))))))))))))).
+        (conj b_sa_length (conj b_sa_pads_right b_sa_width_from_encoded))))))))))))))).
 Qed.
 Print Assumptions C19_source_tie.
 (* ... and the model functions the theorems above are about follow those named rules *)
@@ -218,6 +219,12 @@ Theorem C19_model_follows_rules :
         first_action m_dispatch (kind_test k) = Some (bcol_action c))
   /\ (forall fx5 k, kind_test k = "numeric"%string ->
         num_dt fx5 k [] = dt_of_rule (m_empty_dtype_rule fx5 true true (kind_int_or_bool k) (kind_bool k)))
+  /\ (forall k q qs, is_int_kind k = true ->
+        let vs := map (fun z => z / 4) (q :: qs) in
+        forallb fits_i64 vs = false -> forallb (fun v => (2 ^ 63 <=? v) && (v <? 2 ^ 64)) vs = false ->
+        int_list_col true k (q :: qs)
+        = if m_int_magnitude_rule true true true true true true (forallb (fun v => 0 <=? v) vs) (forallb (fun v => v <? 2 ^ 64) vs) =? 1
+          then Some (ColNum DI (q :: qs)) else None)
   /\ (forall fx5 fx6 ss,
         m_flat_check_raises fx6 true true (negb (forallb (fun s => Nat.eqb (length s) 1) ss)) = true ->
         bcol_of_cells_gen fx5 fx6 KStrand (map MS ss) = None)
@@ -227,8 +234,8 @@ Theorem C19_model_follows_rules :
         m_sa_length (pad w s) = len s /\ m_sa_length (pad w s) = len (strip_nul (pad w s))).
 Proof.
   exact (conj from_rows_follows_rules (conj sort_follows_key_rule (conj conversion_follows_dispatch
-        (conj empty_dtype_follows_rule (conj flat_check_follows_rule (conj add_follows_empty_rule
-        (conj dict_split_inverts_join sa_length_of_padded))))))).
+        (conj empty_dtype_follows_rule (conj int_list_follows_magnitude_rule (conj flat_check_follows_rule (conj add_follows_empty_rule
+        (conj dict_split_inverts_join sa_length_of_padded)))))))).
 Qed.
 Print Assumptions C19_model_follows_rules.
 
